@@ -1,5 +1,5 @@
 """C16 - transform rewrites bottom-up, once per node, preserving metadata."""
-from contracts import rt_transform
+from contracts import rt_transform, rt_objects
 from pyvc.report import Report
 from pyvc.rtver import RtCx
 from .common import run_rt
@@ -14,6 +14,7 @@ def run(tier, seed):
                      'lists rebuilt element-wise, everything else passes through. The inner callback chain: callbacks in the order given; the only heap '
                      'write is the metadata copy into a metadata-less replacement.')
     run_rt(rep, rt_transform.TRANSFORM, tier)
+    run_rt(rep, [rt_objects.ReplaceC()], tier)      # the callee _transform relies on: discharged here too, not assumed
     wiring.metadata_obligations(rep, tier)
     if tier == 'thorough':
         c = rt_transform.TRANSFORM[0]
@@ -22,7 +23,7 @@ def run(tier, seed):
         if bad:
             rep.add('bounded:transform', 'agrees with the reference algorithm on the fixed family', 'bounded', False, detail={'violations': bad[:3]},
                     replay={'reproduced': True, 'violated': bad[:3]})
-    rep.assumptions.append('ParsedObject._replace enters by contract (proved in C14); user callbacks are pure functions of their argument')
+    rep.assumptions.append('ParsedObject._replace enters _transform by its contract, which is discharged in this check as well; user callbacks are pure functions of their argument')
     rep.assumptions.append('"exactly once per occurrence, children before parents" for whole trees follows from the per-activation trace contract by induction on tree height (paper)')
     rep.assumptions.append('python == between objects is modelled as an unknown reflexive relation, `is` as identity: code that compares nodes with == instead of `is` cannot establish the contract')
     return rep.finish()
